@@ -88,7 +88,7 @@ class Pool:
             stdout=open(self.log, "ab"),
             stderr=subprocess.STDOUT,
             start_new_session=True,
-            preexec_fn=self._preexec if (self.nofile or self.affinity) else None,
+            preexec_fn=self._preexec,
         )
         t0 = time.time()
         while time.time() - t0 < 20:
@@ -104,6 +104,13 @@ class Pool:
 
     def _preexec(self):
         import resource
+
+        try:  # the pool must not outlive the shard that started it (PR_SET_PDEATHSIG = 1)
+            import ctypes
+
+            ctypes.CDLL(None).prctl(1, 9)
+        except Exception:  # noqa: BLE001
+            pass
 
         if self.nofile:
             resource.setrlimit(resource.RLIMIT_NOFILE, (self.nofile, resource.getrlimit(resource.RLIMIT_NOFILE)[1]))
